@@ -111,7 +111,7 @@ class Pipeline:
 
     def config_for(self, nid, inc):
         n = self.nodes[nid]
-        cfg = {'id': nid, 'beh': n.get('beh') or {}, 'inc': inc, 'outputs_filter': False, **(n.get('cfg') or {})}  # '_filter' topic off: it carries no provenance and is orthogonal
+        cfg = {'id': nid, 'nid': nid, 'beh': n.get('beh') or {}, 'inc': inc, 'outputs_filter': False, **(n.get('cfg') or {})}  # '_filter' topic off: it carries no provenance and is orthogonal
         srcs = []
         for s in n.get('sources') or []:
             if isinstance(s, dict):      # {'from': id, 'k': output index, 'suffix': '?;main>x'}
@@ -147,13 +147,13 @@ class Pipeline:
             @classmethod
             def normalize_config(cls, config):
                 config = super().normalize_config(config)
-                pipe.log((config.get('id'), config.get('inc')), 'normalize')
+                pipe.log((config.get('nid') or config.get('id'), config.get('inc')), 'normalize')
                 if pipe.hooks is not None:
                     pipe.hooks(config, 'normalize', None)
                 return config
 
             def init(self, config):
-                self.key = key = (config.id, config.inc)
+                self.key = key = (config.get('nid') or config.id, config.inc)     # nid: the node's name in the case; id (the client id on the wire) may be shared by replicas
                 pipe.filters[key] = self
                 self.beh = dict(config.beh or {})
                 pipe.log(key, 'init')
@@ -169,7 +169,7 @@ class Pipeline:
                     super().fini()
 
             def setup(self, config):
-                self.key = key = (config.id, config.inc)
+                self.key = key = (config.get('nid') or config.id, config.inc)     # nid: the node's name in the case; id (the client id on the wire) may be shared by replicas
                 pipe.filters[key] = self
                 self.beh = dict(config.beh or {})
                 self.ncalls = 0
@@ -193,6 +193,10 @@ class Pipeline:
                     import numpy as np
                     a = (np.arange(4 * 5 * 3, dtype=np.int64).reshape(4, 5, 3) * 11 + seq * 7 + 13).astype(np.uint8) if img != 'gray' else \
                         (np.arange(4 * 5, dtype=np.int64).reshape(4, 5) * 9 + seq * 3).astype(np.uint8)
+                    if img == 'fortran':        # column-major memory, e.g. a transposed image
+                        a = np.asfortranarray(a)
+                    elif img == 'strided':      # a mirrored view of a larger buffer
+                        a = np.ascontiguousarray(a[:, ::-1])[:, ::-1]
                     f = Frame(a, data, 'BGR' if img != 'gray' else 'GRAY')
                     if img == 'jpg':
                         f = Frame.from_jpg(bytes(f.ro.jpg), data, 4, 5, 'BGR')
